@@ -30,6 +30,7 @@ def non_interference(chk, n, loops=True):
 
 def run(chk):
     thorough = chk.tier == 'thorough'
+    chk.bounds['families added after seeded changes'] = 'per formula the colours instantiated natively start with the extreme ones (one update function constant true / false), then solver-chosen structurally distinct ones; formulas whose operands partition the state space along one variable'
     chk.bounds.update({'E-UNI': 'instances U2, C2, M2 (thorough: U3 shallow): result(state, colour) == explicit semantics on the transition system of that colour, for every colour; then up to 6 (thorough 20) structurally distinct colours per formula are instantiated and model_check_formula is run natively on the fully specified network',
                        'E-MIR': 'colour non-interference of the kernels with one colour bit, n = 2 (thorough: n = 3 for the loop-free kernels; the n = 3 loop kernels took > 30 min and are not run)', 'outside': 'benchmark models with thousands of colours'})
     from ..run import guard
